@@ -95,7 +95,8 @@ def run(ctx):
             for tq, pq in gen_harness.RATE_PAIRS:
                 if tq in tn and pq in tn:
                     for _ in range(3 if quick else 20):
-                        t_, p_ = rng.choice(amounts[:12]), rng.choice(amounts[:12] if rng.random() < 0.6 else [amounts[0]])
+                        ones = (["3ff0000000000000", "3fb999999999999a"] if be == "f64" else [kc.dec_tok(1, 0), kc.dec_tok(10, 1), kc.dec_tok(1, 1), kc.dec_tok(100, 2), kc.dec_tok(1, 2)])
+                        t_, p_ = rng.choice(amounts[:12]), rng.choice(amounts[:12] if rng.random() < 0.5 else ones)
                         tu, pu = rng.randrange(tn[tq].n), rng.randrange(tn[pq].n)
                         ops.append(f"rate rate_str {tq} {pq} {t_} {tu} {p_} {pu}"); meta.append(("rate", tq, pq, t_, tu, p_, pu))
         impl = kr.run(be, ops)
@@ -124,6 +125,8 @@ def run(ctx):
             elif m[0] == "resolve":
                 if r != f"Some {m[3]}":
                     kr.violation(be, "the displayed symbol does not resolve to the stored unit", op, r, f"Some {m[3]} (symbol {m[5]!r})")
+            elif m[0] == "rate":
+                judge_rate(kr, be, op, m, dec(r), tn)
             elif m[0] == "ufmt":
                 _, t, _, u, sp, sym = m
                 s = dec(r)
@@ -136,6 +139,49 @@ def run(ctx):
                      "(thorough: 30 specs per unit): without precision the amount text must parse back (exact rational / correctly rounded double) to the stored amount and the rest must be the unit's symbol; "
                      "with precision p exactly p fractional digits and the half-even rounded value; one sign character at most, '-' iff negative; total length = max(width, characters); units and rates likewise; "
                      "non-trivial = distinct operations")
+
+
+def amount_text_ok(be, text, tok):
+    """the plain Display text of an amount denotes the amount (sign included)"""
+    va = kc.value(be, tok)
+    if va is None:
+        return True
+    t = text[1:] if text[:1] == "-" else text
+    if not t or any(ch not in "0123456789." for ch in t) or t.count(".") > 1 or t == ".":
+        return False
+    val = Fraction(t) * (-1 if text[:1] == "-" else 1)
+    if be == "f64":
+        return kc.f64_round(abs(val)) == kc.f64_round(abs(va)) and (val < 0) == (va < 0 or (va == 0 and text[:1] == "-"))
+    return val == va
+
+
+def judge_rate(kr, be, op, m, s, tn):
+    """'<term amount>[ <term symbol>] / [<per amount> ]<per symbol>', a per-multiple of ONE omitted when the per unit has a symbol"""
+    _, tq, pq, t_, tu, p_, pu = m
+    if kc.value(be, t_) is None or kc.value(be, p_) is None:
+        return
+    def sym(q, u):
+        e = tn[q].entry
+        return e["symbols"][e["VARIANTS"][u]] if e else ""
+    ts, ps = sym(tq, tu), sym(pq, pu)
+    if " / " not in s:
+        kr.violation(be, "a rate is not displayed as 'term / per'", op, s)
+        return
+    left, right = s.split(" / ", 1)
+    lt = left[:-(len(ts) + 1)] if ts and left.endswith(" " + ts) else (left if not ts else None)
+    if lt is None or not amount_text_ok(be, lt, t_):
+        kr.violation(be, "the term part of a rate is not '<term amount> <term symbol>'", op, s, f"... {ts}")
+        return
+    vp = kc.value(be, p_)
+    if not ps:
+        ok = amount_text_ok(be, right, p_)
+    elif vp == 1:
+        ok = right == ps
+    else:
+        ok = right.endswith(" " + ps) and amount_text_ok(be, right[:-(len(ps) + 1)], p_)
+    if not ok:
+        kr.violation(be, "the per part of a rate is not '[<per multiple> ]<per symbol>' with a multiple of one omitted", op, s,
+                     ps if (ps and vp == 1) else f"<{kc.ff(vp)}> {ps}".strip())
 
 
 def judge_fmt(kr, be, op, m, s):
@@ -207,6 +253,11 @@ def judge_fmt(kr, be, op, m, s):
         if va > 0 and has_minus:
             kr.violation(be, "a positive amount is displayed with a minus", op, s)
             return
+        if va == 0 and has_minus and not neg_bit:
+            kr.violation(be, "a zero amount (no sign bit / decimal) is displayed with a minus", op, s)
+            return
+        if plus and va == 0 and not neg_bit and not core.startswith("+"):
+            kr.violation(be, "the '+' flag does not produce a plus sign for a zero amount", op, s)
         if plus and va > 0 and not core.startswith("+"):
             kr.violation(be, "the '+' flag does not produce a plus sign for a positive amount", op, s)
     rest = core[nsign:]
